@@ -160,6 +160,10 @@ type handlerPair struct {
 	transform streamHandler
 }
 
+// nilStreamValue is what a checkpoint keeps for a stream whose concatenated value is nil
+// (chunks of an interface type), to tell it from a stream without any chunk.
+type nilStreamValue struct{}
+
 type streamConvertPair struct {
 	concatStream  func(sr streamReader) (any, error)
 	restoreStream func(any) (streamReader, error)
@@ -180,11 +184,19 @@ func defaultStreamConvertPair[T any]() streamConvertPair {
 				}
 				return nil, err
 			}
+			if any(value) == nil {
+				// a stream of an interface type that holds nil: nil itself stands for the empty stream
+				return nilStreamValue{}, nil
+			}
 			return value, nil
 		},
 		restoreStream: func(a any) (streamReader, error) {
 			if a == nil {
 				return packStreamReader(schema.StreamReaderFromArray([]T{})), nil
+			}
+			if _, ok := a.(nilStreamValue); ok {
+				var zero T
+				return packStreamReader(schema.StreamReaderFromArray([]T{zero})), nil
 			}
 			value, ok := a.(T)
 			if !ok {
